@@ -976,6 +976,8 @@ pub fn programs() -> Vec<Program> {
         Program { name: "select3", parties: 3, source: "pub fn main(a: u8, b: u8, c: u8) -> u8 { if a > b { c } else { a ^ b } }", consts: vec![vec![], vec![], vec![]], reference: |i, _| if i[0] > i[1] { i[2] } else { (i[0] ^ i[1]) & 0xff }, out_ty: "U8" },
         Program { name: "const-some-3", parties: 3, source: "const Y: u8 = PARTY_1::Y;\npub fn main(a: u8, b: u8, c: u8) -> u8 { (a ^ b ^ c) & Y }", consts: vec![vec![], vec![("Y", 0x77)], vec![]], reference: |i, c| (i[0] ^ i[1] ^ i[2]) & c[0] & 0xff, out_ty: "U8" },
         Program { name: "const-all-3", parties: 3, source: "const X: u8 = PARTY_0::X;\nconst Y: u8 = PARTY_1::Y;\nconst Z: u8 = PARTY_2::Z;\npub fn main(a: u8, b: u8, c: u8) -> u8 { (a & X) ^ (b & Y) ^ (c & Z) }", consts: vec![vec![("X", 0x0f)], vec![("Y", 0xf0)], vec![("Z", 0x99)]], reference: |i, c| ((i[0] & c[0]) ^ (i[1] & c[1]) ^ (i[2] & c[2])) & 0xff, out_ty: "U8" },
+        // party 2 supplies a constant that the program does not depend on
+        Program { name: "const-unused-3", parties: 3, source: "const X: u8 = PARTY_0::X;\nconst Y: u8 = PARTY_1::Y;\npub fn main(a: u8, b: u8, c: u8) -> u8 { (a & X) ^ (b & Y) ^ c }", consts: vec![vec![("X", 0x0f)], vec![("Y", 0xf0)], vec![("UNUSED", 0x42)]], reference: |i, c| ((i[0] & c[0]) ^ (i[1] & c[1]) ^ i[2]) & 0xff, out_ty: "U8" },
     ]
 }
 
